@@ -229,7 +229,7 @@ fn main() {
         }
     }
     // ---- (i) whole pipeline in constant-time test mode
-    let inputs = rng_inputs(if thorough { 4096 } else { 192 }, seed);
+    let inputs = rng_inputs(if thorough { 4096 } else { 448 }, seed);
     for (mi, msg) in [&b"m"[..], &[7u8; 200][..]].iter().enumerate() {
         let sub: Vec<([u8; 64], String)> = if mi == 0 { inputs.clone() } else { inputs.iter().step_by(8).cloned().collect() };
         let mut g = Group::new(&format!("pipeline:ml_dsa_44:|M|={}", msg.len()));
